@@ -49,9 +49,17 @@ class Monitor:
             mon.fit_seen += 1
             mon.dim = uu.shape[1]
             mon.boxes = {}
+            ww = np.asarray(weights, float)
             for v in mon.label_map:
                 pts = uu[lab == v]
-                mon.boxes[v] = (pts.min(0), pts.max(0), len(np.unique(pts, axis=0)))
+                pv = ww[lab == v] / max(float(np.sum(ww[lab == v])), 1e-300)
+                # a label whose WEIGHTED training set is degenerate (its weight sits on <= d+1 effective DISTINCT particles -
+                # identical rows pooled - so a weighted resample of it spans no volume with appreciable probability) may be
+                # described by all particles, like a label with <= d distinct particles
+                _, inv = np.unique(pts, axis=0, return_inverse=True)
+                qv = np.bincount(np.ravel(inv), weights=pv)
+                n_eff = len(qv) if 1.0 / float(np.sum(qv ** 2)) > uu.shape[1] + 1 else 0
+                mon.boxes[v] = (pts.min(0), pts.max(0), n_eff)
             mon.min_distinct = min(b[2] for b in mon.boxes.values())
             mon.total_distinct = len(np.unique(uu, axis=0))
             mon.train_label = {uu[i].tobytes(): int(lab[i]) for i in range(len(lab))}
